@@ -47,6 +47,11 @@ pub fn parse_kind(kind: &str, data: &[u8]) -> anyhow::Result<DoviRpu> {
         "rpu" => DoviRpu::parse_rpu(data),
         "nal" => DoviRpu::parse_unspec62_nalu(data),
         "av1" => DoviRpu::parse_itu_t35_dovi_metadata_obu(data),
+        "st2094" => {
+            // class only: map the ST 2094-10 result onto an RPU-typed result
+            return dolby_vision::st2094_10::itu_t35::ST2094_10ItuT35::parse_itu_t35_dashif(data)
+                .map(|_| DoviRpu::default());
+        }
         _ => panic!("bad kind"),
     }
 }
